@@ -24,6 +24,44 @@ func (e *Engine) newCtx(key string) *FuncCtx {
 		return c
 	}
 	c.renames = e.renamesFor(key, fd)
+	// local slices that were assigned from an existing slice (a variable, an
+	// element of a slice of slices, a sub-slice) share a backing array with it:
+	// the value model of slices cannot follow an element write through them
+	c.sliceAlias = map[*types.Var]bool{}
+	fresh := func(x ast.Expr) bool {
+		switch y := ast.Unparen(x).(type) {
+		case *ast.CompositeLit:
+			return true
+		case *ast.CallExpr:
+			return true // make, append, conversions and calls return fresh values in this model
+		case *ast.Ident:
+			return y.Name == "nil"
+		}
+		return false
+	}
+	ast.Inspect(fd.Body, func(x ast.Node) bool {
+		as, ok := x.(*ast.AssignStmt)
+		if !ok || len(as.Lhs) != len(as.Rhs) {
+			return true
+		}
+		for i, l := range as.Lhs {
+			id, ok := l.(*ast.Ident)
+			if !ok {
+				continue
+			}
+			v, _ := e.info.Defs[id].(*types.Var)
+			if v == nil {
+				v, _ = e.info.Uses[id].(*types.Var)
+			}
+			if v == nil {
+				continue
+			}
+			if _, isSl := under(v.Type()).(*types.Slice); isSl && !fresh(as.Rhs[i]) {
+				c.sliceAlias[v] = true
+			}
+		}
+		return true
+	})
 	// loop ordinals: for / range statements and iterator-closure calls, in
 	// source order
 	n := 0
